@@ -18,13 +18,23 @@ RULE = ("tie P (program capture): for every (helper in {cycle, path}, use_graph_
         "caller's flags, is evaluated by an independent decoder + graph search) and the values the returned "
         "array can take are compared with an independent plain-Python oracle (graphcap.is_single_cycle / "
         "is_single_path / lattice built from the frame's horizontal/vertical arrays).  A case is non-trivial "
-        "when it is a distinct (kind, graph, option, argument form / pattern) tuple.")
+        "when it is a distinct (kind, graph, option, argument form / pattern) tuple.  "
+        "Hardened input classes (tie and search): graph forms -- edges stored (larger, smaller), mixed orientation, shuffled "
+        "order, cycles stored head-to-tail, parallel bundles, self-loops -- and structured instances beyond the exhaustive "
+        "scope (two disjoint cycles on 6-8 vertices, K5/K6/K33/wheels/prisms/Petersen, 7-vertex graphs with n+3..n+6 edges, "
+        "paths/cycles of 6-10 vertices) with targeted edge subsets (graphforms.py); flags as Python True/False mixed with "
+        "expressions, as tuple / BoolArray1D / one-shot iterables (generator, iter, map, reversed: refused with TypeError or "
+        "the program of the materialised list); use_graph_primitive explicit / omitted / None with the config default / all "
+        "arguments by keyword; histories: two calls on the same Solver, Graph object and flag list, the Graph extended by "
+        "the caller between the calls, line_graph() called twice, arguments (flag list, Graph) unchanged after every call.")
 TRUSTED = [
     "meaning of Op.GRAPH_ACTIVE_VERTICES_CONNECTED is *defined* (Graph/Cycle.v gsem_c06) as: the flagged vertices of the graph "
     "decoded from the operand layout [n, m] ++ flags ++ endpoints are connected; the external solver is trusted to implement it",
     "graph-theoretic reading of the property: 'one simple cycle' = every vertex has 0 or 2 active incident edges and the active "
     "edges are connected (two parallel active edges form a 2-cycle); 'one simple path with >= 1 edge' = degrees <= 2, connected, "
-    "exactly two vertices of degree 1; 'visited' = positive active degree",
+    "exactly two vertices of degree 1; 'visited' = positive active degree; a self-loop contributes 2 to its vertex's degree, so "
+    "one active loop alone is a cycle (of length one) and never part of a path -- the Coq specification, the Python oracle and "
+    "the code agree on this reading (checked on every run)",
     "z3 (used in search only, on the really posted constraints) and harness/graphcap.py oracles; before the constraints are "
     "handed to z3 the harness replaces BOOL_CONSTANT / INT_CONSTANT nodes by the literal they hold (pC06.unconst), so that the "
     "search does not depend on the z3 backend's translation of constant nodes (property C01)",
@@ -882,7 +892,7 @@ def flag_strings(rng, m, form):
     return decl_tokens(s0), [exprio.show(a) for a in acts]
 
 
-def search_scenarios(ctx):
+def search_scenarios(ctx, enough=lambda: False):
     rng = ctx.rng
     big = ctx.thorough
     deep = getattr(ctx, "deep", False)
@@ -892,8 +902,11 @@ def search_scenarios(ctx):
     pool = [(n, graphforms.shuffled(rng, es) if i % 2 else es) for i, (n, es) in enumerate(pool)]
     pool += [graphcap.random_multigraph(rng, 6, loops=(i % 5 == 0)) for i in range(60 if big else (30 if deep else 16))]
     pool += [(n, es) for (k, n, es) in graphforms.structured(rng, loops=True)][::(1 if big else 4)]
+    pool += [NAMED[k] for k in ("two-triangles", "triangle+square", "two-2cycles", "2cycle+triangle", "bowtie")]
     # (a) flags given as expressions / Python constants, every container kind, every way of giving the option
     for (n, es) in pool:
+        if enough():
+            return
         for helper in helpers:
             form = rng.choice(["neg", "and", "const", "mixed", "mixed"])
             decl, flags = flag_strings(rng, len(es), form)
@@ -902,10 +915,35 @@ def search_scenarios(ctx):
                                                    "how": rng.choice(["kw", "config", "none", "kwargs"])}]}
             ctx.count("scenario-form:" + form)
             check_scenario(ctx, "expr-flags", sc, rng, 8 if len(es) > 2 else 4)
+    # (a') flags that are mostly Python constants spelling out a targeted edge subset (one that is locally fine -- every
+    # degree allowed -- but not admitted, when the graph has one; and a random one); the few non-constant flags are
+    # decided by the caller assignment
+    for (n, es) in pool:
+        if len(es) < 2:
+            continue
+        if enough():
+            return
+        pats = graphforms.targeted_patterns(rng, n, es, 12)
+        for helper in helpers:
+            kind, _, oracle = HELPERS[helper]
+            ok_deg = (lambda d: all(x in (0, 2) for x in d)) if kind == "cyc" else \
+                (lambda d: all(x <= 2 for x in d) and sum(1 for x in d if x == 1) in (0, 2))
+            near = [q for q in pats if ok_deg(graphcap.edge_degrees(n, es, q)) and not oracle(n, es, list(q))]
+            for pat in ([rng.choice(near)] if near else []) + [rng.choice(pats)]:
+                allconst = rng.random() < 0.6
+                flags = [("T" if b else "F") if (allconst or rng.random() < 0.7) else rng.choice(["b0", "( B NOT b1 )", "( B AND b0 b1 )"])
+                         for b in pat]
+                sc = {"decl": ["b", "b"], "n": n, "calls": [{"helper": helper, "edges": [list(e) for e in es], "flags": flags,
+                                                             "cont": rng.choice(["S", "T", "A"]),
+                                                             "how": rng.choice(["kw", "config", "none", "kwargs"])}]}
+                ctx.count("scenario-form:const-pattern")
+                check_scenario(ctx, "const-flags", sc, rng, 1 if allconst else 4)
     # (b) histories: two calls on the same Solver and Graph object; the same flag list, or the Graph extended in between
     for i, (n, es) in enumerate(pool):
         if n < 2 or len(es) > 9:
             continue
+        if enough():
+            return
         h1, h2 = rng.choice(helpers), rng.choice(helpers)
         mode = ["same", "extend", "extend-fresh-flags"][i % 3]
         form = rng.choice(["vars", "vars", "neg", "mixed"])
@@ -972,7 +1010,7 @@ def search(ctx):
                 continue
             ctx.count("search:%s:%s" % (label, tag))
             check_patterns(ctx, label, key0, r[1], n, es, graphcap.patterns(len(es)), oracle, tag,
-                           spec_rows if label == "cycle" and tag != "loops" else None)
+                           spec_rows if label == "cycle" else None)
     for (tag, n, es, pats) in big_scope(ctx):
         key0 = "n%d:%s" % (n, ",".join("%d-%d" % e for e in es))
         if enough():
@@ -985,9 +1023,9 @@ def search(ctx):
                 continue
             ctx.count("search:%s:big" % label)
             check_patterns(ctx, label, key0, r[1], n, es, pats, oracle, tag,
-                           spec_rows if label == "cycle" and not any(a == b for a, b in es) else None)
+                           spec_rows if label == "cycle" else None)
     if not enough():
-        search_scenarios(ctx)
+        search_scenarios(ctx, enough)
     for (h, w) in frame_shapes(ctx, "search"):
         n, es = lattice(h, w)
         if enough():
